@@ -126,6 +126,8 @@ def warm(tier):
     corpus.entries()
     for c in allmodels.CULTURES:
         words(c)
+    from checks import c05
+    c05.table_entries()
 
 
 def parts(tier, seed):
